@@ -32,6 +32,19 @@ fn flag_waker(flag: Arc<AtomicBool>) -> Waker {
     unsafe { Waker::from_raw(RawWaker::new(Arc::into_raw(flag) as *const (), &VT)) }
 }
 
+/// a waker that sets the flag and unparks a thread (for scenarios in which a thread sleeps until its task is woken)
+fn unpark_waker(flag: Arc<AtomicBool>, th: loom::thread::Thread) -> Waker {
+    struct W { flag: Arc<AtomicBool>, th: loom::thread::Thread }
+    impl std::task::Wake for W {
+        fn wake(self: std::sync::Arc<Self>) { self.wake_by_ref() }
+        fn wake_by_ref(self: &std::sync::Arc<Self>) {
+            self.flag.store(true, Ordering::SeqCst);
+            self.th.unpark();
+        }
+    }
+    Waker::from(std::sync::Arc::new(W { flag, th }))
+}
+
 /// preemption bound: VERIF_LOOM_BOUND (default 3); 255 or more = no bound (every schedule of the scenario)
 fn bound() -> Option<usize> {
     let v = std::env::var("VERIF_LOOM_BOUND").ok().and_then(|v| v.parse::<usize>().ok()).unwrap_or(3);
@@ -59,6 +72,17 @@ impl<F: Future> Task<F> {
         self.flag.store(false, Ordering::SeqCst);
         let w = flag_waker(self.flag.clone());
         let mut cx = Context::from_waker(&w);
+        if let Poll::Ready(v) = self.fut.as_mut().poll(&mut cx) {
+            self.out = Some(v);
+        }
+    }
+    fn poll_with(&mut self, w: &Waker) {
+        if self.out.is_some() {
+            return;
+        }
+        self.polled = true;
+        self.flag.store(false, Ordering::SeqCst);
+        let mut cx = Context::from_waker(w);
         if let Poll::Ready(v) = self.fut.as_mut().poll(&mut cx) {
             self.out = Some(v);
         }
@@ -594,6 +618,181 @@ fn mutex_starved_try() {
     });
 }
 
+/// Blocking forms (C01 / C05, C07, C02 / C06, C09): the same poll functions under the Blocking strategy, a waiter
+/// parked on its thread. Two threads use the blocking form against each other: nobody deadlocks (loom reports a
+/// deadlock as a failed execution), the guards exclude each other, the barrier releases both with one leader.
+fn blocking_forms() {
+    let mut b = loom::model::Builder::new();
+    b.preemption_bound = bound();
+    b.check(|| {
+        EXECUTIONS.fetch_add(1, std::sync::atomic::Ordering::Relaxed);
+        // Mutex::lock_blocking / lock_arc_blocking
+        let m = std::sync::Arc::new(Mutex::new(0u32));
+        let inside = std::sync::Arc::new(std::sync::atomic::AtomicUsize::new(0));
+        let (m2, i2) = (m.clone(), inside.clone());
+        let t = loom::thread::spawn(move || {
+            let mut g = m2.lock_arc_blocking();
+            if i2.fetch_add(1, std::sync::atomic::Ordering::SeqCst) != 0 {
+                panic!("LOOM-VIOLATION blocking_forms: exclusion: lock_arc_blocking returned while the guard of lock_blocking is alive");
+            }
+            *g += 1;
+            i2.fetch_sub(1, std::sync::atomic::Ordering::SeqCst);
+        });
+        {
+            let mut g = m.lock_blocking();
+            if inside.fetch_add(1, std::sync::atomic::Ordering::SeqCst) != 0 {
+                panic!("LOOM-VIOLATION blocking_forms: exclusion: lock_blocking returned while the guard of lock_arc_blocking is alive");
+            }
+            *g += 1;
+            inside.fetch_sub(1, std::sync::atomic::Ordering::SeqCst);
+        }
+        t.join().unwrap();
+        if *m.lock_blocking() != 2 {
+            panic!("LOOM-VIOLATION blocking_forms: an update made under a Mutex guard was lost");
+        }
+    });
+    let mut b = loom::model::Builder::new();
+    b.preemption_bound = bound();
+    b.check(|| {
+        EXECUTIONS.fetch_add(1, std::sync::atomic::Ordering::Relaxed);
+        // Semaphore::acquire_blocking / acquire_arc_blocking: one permit, two takers
+        let s = std::sync::Arc::new(Semaphore::new(1));
+        let held = std::sync::Arc::new(std::sync::atomic::AtomicUsize::new(0));
+        let (s2, h2) = (s.clone(), held.clone());
+        let t = loom::thread::spawn(move || {
+            let g = s2.acquire_arc_blocking();
+            if h2.fetch_add(1, std::sync::atomic::Ordering::SeqCst) != 0 {
+                panic!("LOOM-VIOLATION blocking_forms: over-issue: acquire_arc_blocking returned a permit of a Semaphore(1) while the other permit holder is alive");
+            }
+            h2.fetch_sub(1, std::sync::atomic::Ordering::SeqCst);
+            drop(g);
+        });
+        {
+            let g = s.acquire_blocking();
+            if held.fetch_add(1, std::sync::atomic::Ordering::SeqCst) != 0 {
+                panic!("LOOM-VIOLATION blocking_forms: over-issue: acquire_blocking returned a permit of a Semaphore(1) while the other permit holder is alive");
+            }
+            held.fetch_sub(1, std::sync::atomic::Ordering::SeqCst);
+            drop(g);
+        }
+        t.join().unwrap();
+        if s.try_acquire().is_none() {
+            panic!("LOOM-VIOLATION blocking_forms: both guards are gone and the permit is not back");
+        }
+    });
+    let mut b = loom::model::Builder::new();
+    b.preemption_bound = bound();
+    b.check(|| {
+        EXECUTIONS.fetch_add(1, std::sync::atomic::Ordering::Relaxed);
+        // RwLock::write_blocking against read_blocking
+        let l = std::sync::Arc::new(RwLock::new(0u32));
+        let l2 = l.clone();
+        let t = loom::thread::spawn(move || {
+            let mut w = l2.write_blocking();
+            *w += 1;
+            *w += 1;
+        });
+        let v = *l.read_blocking();
+        if v == 1 {
+            panic!("LOOM-VIOLATION blocking_forms: exclusion: read_blocking read the value in the middle of the update made under write_blocking");
+        }
+        t.join().unwrap();
+        if *l.read_blocking() != 2 {
+            panic!("LOOM-VIOLATION blocking_forms: an update made under a write guard was lost");
+        }
+    });
+    let mut b = loom::model::Builder::new();
+    b.preemption_bound = bound();
+    b.check(|| {
+        EXECUTIONS.fetch_add(1, std::sync::atomic::Ordering::Relaxed);
+        // Barrier::wait_blocking: two parties
+        let bar = std::sync::Arc::new(Barrier::new(2));
+        let b2 = bar.clone();
+        let t = loom::thread::spawn(move || b2.wait_blocking().is_leader());
+        let a = bar.wait_blocking().is_leader();
+        let c = t.join().unwrap();
+        if a == c {
+            panic!("LOOM-VIOLATION blocking_forms: Barrier(2): leaders {} {} (exactly one expected)", a, c);
+        }
+    });
+}
+
+/// C09, blocking form across generations: a Barrier of 2; generation 0 is an async wait() that is released by a
+/// wait_blocking leader but not polled again (its entry stays notified in the event); generation 1 consists of two
+/// wait_blocking parties on two threads: both must return (a parked party that is never woken is a deadlock, which loom
+/// reports), exactly one of them leads.
+fn barrier_blocking_generations() {
+    let mut b = loom::model::Builder::new();
+    b.preemption_bound = bound();
+    b.check(|| {
+        EXECUTIONS.fetch_add(1, std::sync::atomic::Ordering::Relaxed);
+        let bar = std::sync::Arc::new(Barrier::new(2));
+        let b1 = bar.clone();
+        let mut t1 = Task::new(async move { b1.wait().await.is_leader() });
+        t1.poll();
+        assert!(t1.pending());
+        let l0 = bar.wait_blocking().is_leader(); // second arrival of generation 0: the leader; t1 is notified, not re-polled
+        if !l0 {
+            panic!("LOOM-VIOLATION barrier_blocking_generations: the last party to arrive is not the leader");
+        }
+        let b2 = bar.clone();
+        let t = loom::thread::spawn(move || b2.wait_blocking().is_leader());
+        let a = bar.wait_blocking().is_leader();
+        let c = t.join().unwrap();
+        if a == c {
+            panic!("LOOM-VIOLATION barrier_blocking_generations: generation 1: leaders {} {} (exactly one expected)", a, c);
+        }
+        t1.settle();
+        if t1.pending() {
+            panic!("LOOM-VIOLATION barrier_blocking_generations: the wait() of generation 0 is still pending after both of its parties arrived and it was polled again");
+        }
+        drop(t1);
+    });
+}
+
+/// C05, blocking waiter next to the fair protocol: an async lock_arc() future W becomes starved while a thread is parked
+/// in lock_blocking(); the mutex is then unlocked for good. W's task sleeps until its waker is called; both W and the
+/// blocking thread must get the mutex (a wake-up that is lost leaves both asleep: a deadlock, which loom reports).
+fn mutex_blocking_vs_starved() {
+    let mut b = loom::model::Builder::new();
+    b.preemption_bound = bound();
+    b.check(|| {
+        EXECUTIONS.fetch_add(1, std::sync::atomic::Ordering::Relaxed);
+        async_lock::verif::oracle_enable(true);
+        async_lock::verif::oracle_set(&[]);
+        let m = std::sync::Arc::new(Mutex::new(0u32));
+        let g0 = m.try_lock_arc().unwrap();
+        let mut t1 = Task::new(m.lock_arc());
+        let w = unpark_waker(t1.flag.clone(), loom::thread::current());
+        t1.poll_with(&w);
+        assert!(t1.pending());
+        drop(g0); // W notified
+        let g1 = m.try_lock_arc().unwrap(); // barging
+        let m2 = m.clone();
+        let t = loom::thread::spawn(move || {
+            let mut g = m2.lock_blocking();
+            *g += 1;
+        });
+        async_lock::verif::oracle_set(&[true]);
+        t1.poll_with(&w); // consumes its notification, loses the race, the clock says starved
+        assert!(t1.pending());
+        async_lock::verif::oracle_set(&[]);
+        drop(g1); // unlocked for good
+        // W's task: sleep until woken, then poll
+        while t1.out.is_none() {
+            if t1.woken() {
+                t1.poll_with(&w);
+            } else {
+                loom::thread::park();
+            }
+        }
+        drop(t1.out.take());
+        t.join().unwrap();
+        async_lock::verif::oracle_enable(false);
+        drop(t1);
+    });
+}
+
 fn main() {
     let which = std::env::args().nth(1).unwrap_or_else(|| "all".to_string());
     let tests: Vec<(&str, fn())> = vec![
@@ -611,6 +810,9 @@ fn main() {
         ("rw_try_race", rw_try_race),
         ("rw_writer_announced", rw_writer_announced),
         ("mutex_starved_try", mutex_starved_try),
+        ("blocking_forms", blocking_forms),
+        ("mutex_blocking_vs_starved", mutex_blocking_vs_starved),
+        ("barrier_blocking_generations", barrier_blocking_generations),
     ];
     for (name, f) in tests {
         if which == "all" || which == name {
